@@ -22,7 +22,7 @@ from engine.interp import (Const, Sym, ListV, TupleV, ObjV, TypeV, Prim, FuncV, 
 from engine.loader import AnalysisError
 from . import docmodel as DM
 
-CLASSIC = {'t', 'nil', 'hl', 'line', 'soft', 'cat', 'grp', 'nest', 'ab', 'align'}
+CLASSIC = {'t', 'nil', 'hl', 'line', 'soft', 'cat', 'grp', 'nest', 'ab', 'align', 'hang'}
 
 
 def _kinds(t, out=None):
@@ -45,7 +45,7 @@ def _flat_forced(t):
         return any(_flat_forced(x) for x in t[1])
     if k in ('grp', 'ann', 'align'):
         return _flat_forced(t[1])
-    if k == 'nest':
+    if k in ('nest', 'hang'):
         return _flat_forced(t[2])
     if k == 'fc':
         return _flat_forced(t[2])
@@ -79,7 +79,7 @@ def layouts(t):
                 collect(x)
         elif k in ('ann', 'ab', 'align'):
             collect(t[1])
-        elif k == 'nest':
+        elif k in ('nest', 'hang'):
             collect(t[2])
         elif k == 'fc':
             collect(t[1])
@@ -98,7 +98,7 @@ def layouts(t):
                 fill_seps(x)
         elif k in ('ann', 'ab', 'align', 'grp'):
             fill_seps(t[1])
-        elif k == 'nest':
+        elif k in ('nest', 'hang'):
             fill_seps(t[2])
         elif k == 'fc':
             fill_seps(t[1])
@@ -146,6 +146,8 @@ def layouts(t):
                 go(t[2], mode, indent + t[1])
             elif k == 'align':
                 go(t[1], mode, state['col'])
+            elif k == 'hang':
+                go(t[2], mode, state['col'] + t[1])
             elif k == 'ann':
                 buf.append('\x01')
                 go(t[1], mode, indent)
@@ -203,6 +205,8 @@ def documents(tier, seed):
         cat(('fill', [('t', 'lorem'), L, ('t', 'ipsum'), L]), ('t', '.')), g(cat(('fill', [b, L, c, L]), a)), ('fill', [b, L]), ('nest', 2, ('fill', [a, L, b, L, c, L, a, L, b])),
         cat(('t', '0123456789'), g(cat(a, L, a)), ('nest', 2, cat(H, ('t', 'x' * 14)))), g(cat(('t', 'x' * 9), L, a)),
         g(cat(a, L, a, H, a, L, ('t', 'dddddd'))),
+        # hang(i, d) = the block starts here and its continuation lines are indented i columns further than where it started
+        cat(b, ('t', ' '), ('hang', 2, cat(a, L, c, L, a))), g(cat(('t', 'xx'), ('hang', 3, g(cat(b, L, c))))), ('nest', 4, cat(a, L, ('hang', 0, cat(b, L, c)))),
         # fills whose separators are not plain line breaks (the comment builder: a broken separator starts the next comment line)
         ('fill', [('t', '# one'), ('fc', cat(H, ('t', '# ')), ('t', ' ')), ('t', 'two'), ('fc', cat(H, ('t', '# ')), ('t', ' ')), ('t', 'three')]),
         cat(b, ('t', '  '), ('nest', 4, ('fill', [('t', '# aa'), ('fc', cat(H, ('t', '# ')), ('t', ' ')), ('t', 'bb'), ('fc', cat(H, ('t', '# ')), ('t', ' ')), ('t', 'cc'),
@@ -252,6 +256,8 @@ class World(DM.World):
     def build(self, t):
         if t[0] == 'align':
             return self.call(self.dm, 'align', [self.build(t[1])])
+        if t[0] == 'hang':
+            return self.call(self.dm, 'hang', [Const(t[1]), self.build(t[2])])
         return DM.World.build(self, t)
 
     def layout(self, strategy, doc, width, frac):
